@@ -22,7 +22,10 @@ RULE = ("instances of 8 registered RegDom, 4 frozen IceRegDom, a TymeDom and an 
         "a fresh Outer class whose postponed annotation names a not yet defined Inner, deserialises it once (nested field "
         "absent / null / no early call as control), then defines Inner and round-trips an Outer holding an Inner; four frozen "
         "IceRegDom classes (one holding a mutable data object) join the 8 classes; a mutation stream serialises an object, "
-        "changes a nested list / dict / non-frozen data object in place, and serialises and round-trips it again; non-trivial = a nested "
+        "changes a nested list / dict / non-frozen data object in place, and serialises and round-trips it again; a refused-input "
+        "stream interleaves malformed inputs (truncation at one or at every prefix length, trailing bytes, the record twice, a "
+        "non-dict top-level value; for json, cbor and mgpk) with clean round trips of other classes before the case's own round "
+        "trip; non-trivial = a nested "
         "object, a non-ASCII string, an int beyond 2^53 or a list/dict field")
 MODELLED = ["json / cbor2 / msgpack as an abstract codec with dec (enc v) = Some v on the common domain (checked per case: the "
             "library's decode of its own encoding must equal _asdict())",
@@ -412,6 +415,7 @@ def directed():
             {"obj": obj(16, value=["d", [["k", ["f", (1.5).hex()]]]])}, {"obj": obj(15, value=tp)},
             {"obj": obj(13, leaf=tp, v=["l", []]), "mut": [[["f", "leaf"]], "attr", "a", ["i", 6]]},
             {"obj": obj(14, leaf=tp, v=["l", []]), "mut": [[["f", "v"]], "append", ["i", 6]]}]
+    out += directed_seqs()
     leaf = obj(4, a=["i", 5], b=["s", "é"])
     for early in ("absent", "null", "control"):
         out.append({"obj": obj(5, leaf=leaf, v=["i", 2]), "early": early})
@@ -500,6 +504,48 @@ def mutation_cases(rng, k):
     return out
 
 
+def rand_typed(rng):
+    c = rng.choice([0, 1, 2, 4, 5, 6, 8, 9, 10, 12, 13, 14, 15, 16])
+    return rand_obj(rng, c, 0.0, 0.0)
+
+
+def seq_cases(rng, k):
+    out = []
+    for i in range(k):
+        steps = []
+        for _ in range(rng.choice([1, 2, 3, 5])):
+            r = rng.random()
+            t = rand_typed(rng)
+            ki = rng.randrange(3)
+            if r < 0.25:
+                steps.append(["rt", t])
+            elif r < 0.6:
+                steps.append(["bad", ki, t, "trunc", rng.choice([0, 1, 2, 3, 5, 8, 13, 21, 34, 55, 10**6])])
+            elif r < 0.75:
+                steps.append(["bad", ki, t, "trail", rng.choice([1, 2, 5])])
+            elif r < 0.85:
+                steps.append(["bad", ki, t, "double", 0])
+            else:
+                steps.append(["bad", ki, t, "type", rng.randrange(3)])
+        out.append({"obj": rand_typed(rng), "seq": steps})
+    return out
+
+
+def directed_seqs():
+    leaf = obj(0, a=["i", 5], b=["s", "é"])
+    mid = obj(1, leaf=leaf, v=["l", [["i", 1], ["f", (2.5).hex()], ["n"]]])
+    tb = obj(13, leaf=obj(12, a=["i", 1]), v=["d", [["k", ["i", 2]]]])
+    ice = obj(9, leaf=leaf, v=["s", "x"])
+    out = []
+    for ki in range(3):
+        out.append({"obj": mid, "seq": [["rt", leaf], ["bad", ki, mid, "trunc", 5], ["rt", tb]]})
+        out.append({"obj": tb, "seq": [["bad", ki, ice, "trail", 2], ["rt", mid]]})
+        out.append({"obj": ice, "seq": [["bad", ki, leaf, "double", 0], ["bad", ki, leaf, "type", 0], ["bad", ki, leaf, "type", 1]]})
+        out.append({"obj": leaf, "seq": [["bad", ki, mid, "alltrunc", 0]]})
+        out.append({"obj": mid, "seq": [["bad", ki, tb, "alltrunc", 0], ["bad", (ki + 1) % 3, ice, "trunc", 3]]})
+    return out
+
+
 def generate(rng, tier):
     n = 500 if tier == "quick" else 4500
     out = [{"obj": rand_obj(rng, rng.randrange(NCLS))} for _ in range(n)]
@@ -507,6 +553,7 @@ def generate(rng, tier):
     out += [{"obj": rand_obj(rng, rng.randrange(NCLS), 0.0, 0.35)} for _ in range(n // 4)]
     out += history_cases(rng, 60 if tier == "quick" else 600)
     out += mutation_cases(rng, 240 if tier == "quick" else 2400)
+    out += seq_cases(rng, 150 if tier == "quick" else 1500)
     return out
 
 
@@ -536,7 +583,91 @@ def _asdict_tree(t):
     return t
 
 
+# Refused-input histories ("seq"): before the case's own round trip, a list of steps runs in the same process:
+#   ["rt", tree]                         round trip of another (well-typed) object through the three codecs
+#   ["bad", codec, tree, how, arg]       a malformed input derived from the valid encoding of tree is given to _from*:
+#        how = "trunc" (first arg bytes), "alltrunc" (every proper prefix, each followed by a round trip of tree),
+#              "trail" (arg extra bytes appended), "double" (the record twice), "type" (a non-dict top-level value)
+# Every _from* result must depend on its own argument only.
+def _dumps(kind, v):
+    if kind == "json":
+        return json.dumps(v, separators=(",", ":"), ensure_ascii=False).encode()
+    if kind == "cbor":
+        import cbor2
+        return cbor2.dumps(v)
+    import msgpack
+    return msgpack.dumps(v)
+
+
+def _reference(kind, raw):
+    """what a state-free decoder makes of raw: ("exc",) or ("ok", value)"""
+    try:
+        return ("ok", _loads(kind, raw))
+    except Exception:
+        return ("exc",)
+
+
+def run_seq(steps):
+    log = []
+
+    def rt(tree):
+        x = build(tree)
+        res = []
+        for enc, dec, kind in CODECS:
+            try:
+                y = getattr(type(x), dec)(getattr(x, enc)())
+                res.append(bool(y == x and type(y) is type(x)))
+            except Exception as ex:
+                res.append(exn_kind(ex))
+        return res
+
+    def bad(kind_i, x, raw):
+        enc, dec, kind = CODECS[kind_i]
+        ref = _reference(kind, raw)
+        try:
+            y = getattr(type(x), dec)(raw)
+            got = ["ok", bool(y == x and type(y) is type(x))]
+        except Exception as ex:
+            got = ["exc", exn_kind(ex)]
+        # expectation from the argument alone
+        if ref[0] == "exc":
+            want = "exc"
+        elif ref[1] == x._asdict():
+            want = "same"          # e.g. cbor2 ignores trailing bytes: the record itself is intact
+        else:
+            want = "any"
+        return {"codec": kind, "len": len(raw), "got": got, "want": want}
+
+    for st in steps:
+        if st[0] == "rt":
+            log.append({"rt": rt(st[1])})
+            continue
+        _, ki, tree, how, arg = st
+        x = build(tree)
+        raw = getattr(x, CODECS[ki][0])()
+        if how == "trunc":
+            log.append({"bad": bad(ki, x, raw[:max(0, min(arg, len(raw) - 1))])})
+        elif how == "alltrunc":
+            for k in range(len(raw)):
+                log.append({"bad": bad(ki, x, raw[:k])})
+                log.append({"rt": rt(tree)})
+        elif how == "trail":
+            log.append({"bad": bad(ki, x, raw + bytes(range(1, arg + 1)))})
+        elif how == "double":
+            log.append({"bad": bad(ki, x, raw + raw)})
+        else:
+            log.append({"bad": bad(ki, x, _dumps(CODECS[ki][2], [1, "a"] if arg == 0 else (7 if arg == 1 else "text")))})
+    return log
+
+
 def run_impl(case):
+    seqlog = run_seq(case["seq"]) if case.get("seq") else None
+    obs = _run_one(case)
+    obs["seqlog"] = seqlog
+    return obs
+
+
+def _run_one(case):
     cs, first = (None, None)
     if case.get("early"):
         assert case["obj"][1] == 5, "history cases are Outer-shaped (class 5 holding class 4)"
@@ -565,6 +696,18 @@ def run_impl(case):
 
 
 def oracle(case, obs):
+    for n, e in enumerate(obs.get("seqlog") or []):
+        if "rt" in e:
+            if e["rt"] != [True, True, True]:
+                return f"history step {n}: a clean round trip between refused inputs failed: {e['rt']} (json, cbor, mgpk)"
+        else:
+            b = e["bad"]
+            if b["want"] == "exc" and b["got"][0] != "exc":
+                return (f"history step {n}: {b['codec']} input of {b['len']} bytes that a state-free decoder refuses was "
+                        f"accepted by _from*: {b['got']}")
+            if b["want"] == "same" and b["got"] != ["ok", True]:
+                return (f"history step {n}: {b['codec']} input of {b['len']} bytes decodes to the record itself but _from* "
+                        f"gave {b['got']}")
     if obs.get("first") and not all(obs["first"]):
         return f"early deserialisation of the outer class (before its nested class existed) went wrong: {obs['first']}"
     for phase, o in (("before the in-place change", obs.get("pre")), ("of the current object", obs)):
@@ -607,6 +750,12 @@ def nontrivial(case, obs):
 
 
 def shrink(case):
+    if case.get("seq"):
+        sq = case["seq"]
+        for i in range(len(sq)):
+            if len(sq) > 1:
+                yield dict(case, seq=sq[:i] + sq[i + 1:])
+        return
     if case.get("early") or case.get("mut"):
         return
     t = case["obj"]
@@ -679,5 +828,6 @@ def distribution(cases, obs):
         d["frozen class"] = d.get("frozen class", 0) + (t[1] in FROZEN)
         d["mutation history"] = d.get("mutation history", 0) + bool(c.get("mut"))
         d["early-call history"] = d.get("early-call history", 0) + bool(c.get("early"))
+        d["refused-input history"] = d.get("refused-input history", 0) + bool(c.get("seq"))
         d["nested depth >= 2"] += any(x[0] == "o" and any(y[0] == "o" for _, y in x[2]) for _, x in t[2])
     return d
